@@ -148,6 +148,8 @@ let parse_op (ws : string list) : map_op =
   | "entry_remove" | "rentry_remove" | "raw_remove" -> OpEntryRemove (z 1, z 2)
   | "rentry_drop" | "eref_drop" -> OpEntryDrop (z 1, z 2)
   | "raw_get" -> OpGetKeyValue (z 1)
+  | "raw_hash_insert" -> OpEntryInsert (z 2, z 3, z 4)             (* searched under the hash of key (nth 1) *)
+  | "raw_rename" -> OpRemove (z 1)                                  (* ... followed by the insertion of (nth 3) *)
   | "entry_replace" | "entry_and_replace" -> if List.nth ws 3 = "some" then OpGetMut (z 1, z 4) else OpEntryRemove (z 1, z 2)
   | "raw_replace" | "raw_and_replace" -> if List.nth ws 3 = "some" then OpGetMut (z 1, z 4) else OpRemove (z 1)
   | "entry_and_modify" -> OpEntryAndModify (z 1, z 2, z 3, z 4)
@@ -1191,6 +1193,23 @@ let () =
                  | "eref_or_insert" -> ERefOrInsert | "eref_insert" -> ERefInsert (zs (List.nth opws 3)) | _ -> ERefDrop) in
                eref_into_p_step cfg.backend (hash_of panic_key) tpre (zs (List.nth opws 1)) act
              end
+             else if opname = "raw_hash_insert" then begin
+               bump branch "raw_from_hash_model";
+               (match hash_of panic_key (zarg 1) with
+                | Some h -> raw_step_hashed cfg.backend cfg.tsize cfg.talign cfg.needs_drop rehash_guard_unconditional (hash_of panic_key) refuse
+                              tpre h (zarg 2) (RActInsert (zarg 2, zarg 3, zarg 4))
+                | None -> Fail UB_unreachable)
+             end
+             else if opname = "raw_rename" then begin
+               bump branch "raw_rename_model";
+               (match step tpre (OpRemove (zarg 1)) with
+                | Fail e -> Fail e
+                | Ok ((t1, o1), ev1) ->
+                  (match raw_step cfg.backend cfg.tsize cfg.talign cfg.needs_drop rehash_guard_unconditional (hash_of panic_key) refuse
+                           t1 (zarg 3) (RActInsert (zarg 3, zarg 4, zarg 5)) with
+                   | Fail e -> Fail e
+                   | Ok ((t2, _), ev2) -> Ok ((t2, o1), ev1 @ ev2)))
+             end
              else if entry_closure_panic then begin
                bump branch "entry_closure_panic_model";
                if opname = "entry_and_modify" then
@@ -1378,7 +1397,11 @@ let () =
                   (String.concat "," (sorted_kvs !spec)) (String.concat "," (sorted_kvs contents));
               spec := contents
             | Some r ->
-              (match spec_accepts !spec op r with
+              (match (match spec_accepts !spec op r with
+                      | Some s1 when opname = "raw_rename" ->
+                        (* ... then the insertion of the second key through the returned vacant entry *)
+                        spec_accepts s1 (OpEntryInsert (zs (List.nth opws 3), zs (List.nth opws 4), zs (List.nth opws 5))) OutNone
+                      | x -> x) with
                | Some s' ->
                  if sorted_kvs s' <> sorted_kvs contents then begin
                    say "A-FAIL %s: contents differ from the reference map: reference=[%s] impl=[%s]" where
